@@ -13,6 +13,7 @@ static inline bool is_system_message(const char *topic);
 static int tell_if(void *data, const char *key, void *value);
 static ps_priv_t *alloc_ps_msg(const ps_priv_t *msg, ev_src_t *sub);
 static void ps_msg_dtor(void *data);
+static void ps_data_dtor(void *data);
 static void tell_subscribers(void *data, void *value);
 static int tell_pubsub_msg(ps_priv_t *m, const m_mod_t *recipient, m_ctx_t *c);
 static int send_msg(m_mod_t *mod, const m_mod_t *recipient, const char *topic, 
@@ -88,6 +89,7 @@ static ps_priv_t *alloc_ps_msg(const ps_priv_t *msg, ev_src_t *sub) {
         memcpy(m, msg, sizeof(ps_priv_t));
         m->msg.sender = m_mem_ref((void *)m->msg.sender); // keep module alive until message is dispatched
         m->sub = m_mem_ref(sub); // keep subscription alive too: it may be removed while message is in flight
+        m->data_ref = m_mem_ref(m->data_ref); // autofree data is freed when last copy of the message is destroyed
     }
     return m;
 }
@@ -95,13 +97,16 @@ static ps_priv_t *alloc_ps_msg(const ps_priv_t *msg, ev_src_t *sub) {
 static void ps_msg_dtor(void *data) {
     ps_priv_t *pubsub_msg = (ps_priv_t *)data;
     
-    if (pubsub_msg->flags & M_PS_AUTOFREE) {
-        memhook._free((void *)pubsub_msg->msg.data);
-    }
+    m_mem_unref(pubsub_msg->data_ref);
     if (pubsub_msg->msg.sender) {
         m_mem_unref((void *)pubsub_msg->msg.sender);
     }
     m_mem_unref(pubsub_msg->sub);
+}
+
+static void ps_data_dtor(void *data) {
+    void **holder = (void **)data;
+    memhook._free(*holder);
 }
 
 static void tell_subscribers(void *data, void *value) {
@@ -137,8 +142,17 @@ static int send_msg(m_mod_t *mod, const m_mod_t *recipient, const char *topic,
     M_PARAM_ASSERT(message);
 
     mod->stats.sent_msgs++;
-    ps_priv_t m = { { false, mod, topic, message }, flags, NULL };
-    return tell_pubsub_msg(&m, recipient, mod->ctx);
+    ps_priv_t m = { { false, mod, topic, message }, flags, NULL, NULL };
+    if (flags & M_PS_AUTOFREE) {
+        void **holder = m_mem_new(sizeof(void *), ps_data_dtor);
+        M_ALLOC_ASSERT(holder);
+        *holder = (void *)message;
+        m.data_ref = holder;
+    }
+    int ret = tell_pubsub_msg(&m, recipient, mod->ctx);
+    /* Drop our reference: data is freed as soon as last recipient (if any) is done with the message */
+    m_mem_unref(m.data_ref);
+    return ret;
 }
 
 /** Private API **/
